@@ -130,7 +130,7 @@ VARIANTS: List[Variant] = [
       "    for root_species in rec_input.species_lca.tree.traverse():\n        results: Entry[int, ReconciliationOutput] = Entry(MergePolicy.MIN, policy)\n",
       "RESULT-SCOPE"),
     M("thl-wrong-row", REC, "table[right_node][left_child].value() + left_loss", "table[left_node][left_child].value() + left_loss",
-      "MIRROR", "EVENT-SIG", "CLASS-DOMAIN", "INFO-KEY"),
+      "EVENT-SIG"),
     M("thl-decode-sides", REC, "right_object,\n                info.right,", "right_object,\n                info.left,", "DECODE-COMPLETE"),
     M("exh-rank-const", EXH, "results.update(Candidate(output.cost(), output))", "results.update(Candidate(0, output))", "RESULT-SCOPE"),
     M("exh-drop-left", EXH, "                    node: parent_species,\n                    **map_left.object_species,",
@@ -172,7 +172,7 @@ VARIANTS: List[Variant] = [
     M("spfs-left-free-ends", SPFS,
       "                        if is_left_desc:\n                            subprobs[child_index].left.update(\n                                Candidate(\n                                    value=species_dist + sub_cost + conserv_dist,",
       "                        if is_left_desc:\n                            subprobs[child_index].left.update(\n                                Candidate(\n                                    value=species_dist + sub_cost + segment_dist,",
-      "EVENT-SIG", "MIRROR"),
+      "EVENT-SIG"),
     M("spfs-fill-preorder", SPFS, 'srec_input.object_tree.traverse("postorder"),\n        desc="Table entries",',
       'srec_input.object_tree.traverse("preorder"),\n        desc="Table entries",', "TRAVERSAL"),
     M("spfs-result-return-early", SPFS, "                    )\n                )\n\n    return results.infos()\n\n\ndef sreconcile_base_spfs",
@@ -364,6 +364,125 @@ VARIANTS += [
     T("twin-model-docstring", MODEL, '        """Compute the total cost of this reconciliation."""', '        """Compute the total cost (events plus full losses) of this reconciliation."""'),
     T("twin-tikz-comment", TIKZ, "    # Append layers in order\n", "    # Emit the layers, background first\n"),
 ]
+
+
+# ---------------------------------------------------------------------------
+# variants for the rules added in the second build round
+TEXT = "utils/text.py"
+RENDER_MODEL = "render/model.py"
+DRAW = "cli/draw.py"
+
+VARIANTS += [
+    # node_event decision table / conserved side
+    M("event-spe-no-lca-test", MODEL,
+      "                if (\n                    rec[node] == species_lca(rec[left_node], rec[right_node])\n                    and not species_lca.is_comparable(",
+      "                if (\n                    not species_lca.is_comparable(", "EVENT-TABLE"),
+    M("event-invalid-weakened", MODEL,
+      "        if species_lca.is_strict_ancestor_of(\n            rec[left_node], rec[node]\n        ) or species_lca.is_strict_ancestor_of(rec[right_node], rec[node]):\n            return NodeEvent.INVALID\n",
+      "        if species_lca.is_strict_ancestor_of(\n            rec[left_node], rec[node]\n        ) and species_lca.is_strict_ancestor_of(rec[right_node], rec[node]):\n            return NodeEvent.INVALID\n", "EVENT-TABLE"),
+    M("event-hgt-both", MODEL,
+      "        if species_lca.is_ancestor_of(\n            rec[node], rec[left_node]\n        ) or species_lca.is_ancestor_of(rec[node], rec[right_node]):\n            return NodeEvent.HORIZONTAL_TRANSFER\n\n        return NodeEvent.INVALID",
+      "        return NodeEvent.HORIZONTAL_TRANSFER", "EVENT-TABLE", "EVENT-EXHAUSTIVE"),
+    M("event-leaf-flipped", MODEL, "                if rec[node] == self.input.leaf_object_species[node]\n                else NodeEvent.INVALID",
+      "                if rec[node] != self.input.leaf_object_species[node]\n                else NodeEvent.INVALID", "EVENT-TABLE"),
+    M("eval-hgt-min-dist", MODEL,
+      "        dist_conserved = (\n            left_dist\n            if species_lca.is_ancestor_of(rec[node], rec[left_node])\n            else right_dist\n        )",
+      "        dist_conserved = min(left_dist, right_dist)", "MODEL-TABLE", "CONSERVED-SIDE"),
+    M("eval-keep-left-swapped-args", MODEL,
+      "                    keep_left = self.input.species_lca.is_comparable(\n                        rec[node], rec[left_node]\n                    )",
+      "                    keep_left = self.input.species_lca.is_ancestor_of(\n                        rec[left_node], rec[node]\n                    )", "CONSERVED-SIDE"),
+    T("twin-event-strict-as-neq", MODEL,
+      "        if species_lca.is_strict_ancestor_of(\n            rec[left_node], rec[node]\n        ) or species_lca.is_strict_ancestor_of(rec[right_node], rec[node]):",
+      "        if (\n            rec[left_node] != rec[node] and species_lca.is_ancestor_of(rec[left_node], rec[node])\n        ) or species_lca.is_strict_ancestor_of(rec[right_node], rec[node]):"),
+    T("twin-event-lca-order", MODEL, "rec[node] == species_lca(rec[left_node], rec[right_node])", "species_lca(rec[right_node], rec[left_node]) == rec[node]"),
+    # homogeneity / monotonicity
+    M("thl-parens-dropped", REC, "left_loss = loss_cost * (species_lca.distance(root_species, left_child) - 1)",
+      "left_loss = loss_cost * species_lca.distance(root_species, left_child) - 1", "COST-HOMOGENEOUS", "EVENT-SIG"),
+    M("spfs-wrong-loss-key", SPFS, "species_dist = above_species_dist - floss_cost", "species_dist = above_species_dist - sloss_cost", "COST-MONOTONE", "EVENT-SIG"),
+    # statelessness
+    M("thl-lru-cache", REC, "def _compute_thl_table(", "@lru_cache(maxsize=32)\ndef _compute_thl_table(", "SOLVER-STATELESS"),
+    M("lca-class-level-index", TREES, "        self.traversal_index: Dict[TreeNode, int] = {}\n", "", "SOLVER-STATELESS"),
+    M("tikz-shared-layers", TIKZ,
+      "    layers: Dict[str, List[str]] = {\n        \"background\": [],\n        \"gene branches\": [],\n        \"gene transfers\": [],\n        \"events\": [],\n    }\n",
+      "    layers: Dict[str, List[str]] = dict(LAYERS)\n", "SOLVER-STATELESS"),
+    M("lca-input-alias", REC, "    rec = {}\n\n    for node in rec_input.object_tree.traverse(\"postorder\"):\n        if node.is_leaf():",
+      "    rec = rec_input.leaf_object_species\n\n    for node in rec_input.object_tree.traverse(\"postorder\"):\n        if node.is_leaf():", "READONLY-INPUT"),
+    M("graft-drop-ignore", TREES, "for graft_right in graft(right, leaf, ignore):", "for graft_right in graft(right, leaf):", "RECURSE-FORWARD"),
+    M("pseudogene-namedtuple", RENDER_MODEL, "class PseudoGene:  # pylint:disable=too-few-public-methods", "class PseudoGene(NamedTuple):", "IDENTITY-KEYS"),
+    M("topo-pop-successors", TOPO, "        for node_to in graph[node_from]:\n            indeg[node_to] -= 1\n\n            if indeg[node_to] == 0:\n                starts.append(node_to)",
+      "        succs = graph[node_from]\n        while succs:\n            node_to = succs.pop()\n            indeg[node_to] -= 1\n\n            if indeg[node_to] == 0:\n                starts.append(node_to)", "READONLY-GRAPH"),
+    M("layout-pruned-walk", LAYOUT, "        for root_gene in gene_tree.traverse(\"postorder\"):\n            if mapping[root_gene] != root_species:",
+      "        for root_gene in gene_tree.traverse(\"postorder\", is_leaf_fn=lambda g: False):\n            if mapping[root_gene] != root_species:", "NO-PRUNED-TRAVERSAL"),
+    M("output-eq-by-name", MODEL, "    def __hash__(self):\n        return hash(\n            (\n                self.input,\n                tuple(sorted(serialize_tree_mapping(self.object_species).items())),",
+      "    def __eq__(self, other):\n        return self.input == other.input and serialize_tree_mapping(self.object_species) == serialize_tree_mapping(other.object_species)\n\n    def __hash__(self):\n        return hash(\n            (\n                self.input,\n                tuple(sorted(serialize_tree_mapping(self.object_species).items())),",
+      "EQ-BY-FIELDS"),
+    # decoders
+    M("uspfs-content-not-passed", USPFS, "        ancestor_synteny = ancestor_synteny | gain_sets[root_object]\n        root_synteny = sort_synteny(ancestor_synteny)",
+      "        root_synteny = sort_synteny(ancestor_synteny | gain_sets[root_object])", "DECODE-CONTENT-FLOW"),
+    T("twin-uspfs-content-named", USPFS, "        ancestor_synteny = ancestor_synteny | gain_sets[root_object]\n        root_synteny = sort_synteny(ancestor_synteny)",
+      "        own_content = ancestor_synteny | gain_sets[root_object]\n        ancestor_synteny = own_content\n        root_synteny = sort_synteny(own_content)"),
+    M("spfs-ext-shortcut", SPFS, "    return _spfs(\n        srec_input,\n        policy,\n        allowed_species=lambda species, _: species.traverse(\"postorder\"),",
+      "    if srec_input.costs[NodeEvent.HORIZONTAL_TRANSFER] >= 100:\n        return sreconcile_base_spfs(srec_input, policy)\n\n    return _spfs(\n        srec_input,\n        policy,\n        allowed_species=lambda species, _: species.traverse(\"postorder\"),",
+      "BASE-EXT-SHARE"),
+    # serialisation / command line
+    M("fromdict-cost-or-default", MODEL, "                costs[event_enum] = value\n", "                costs[event_enum] = value or get_default_cost()[event_enum]\n", "COST-PASSTHROUGH", "COST-TRUTH"),
+    M("cli-cost-or-default", CLI, "(kind, getattr(args, f\"cost_{argname}\"))", "(kind, getattr(args, f\"cost_{argname}\", None) or get_default_cost()[kind])", "COST-PASSTHROUGH", "COST-TRUTH"),
+    M("thl-cost-or-default", REC, "    spe_cost = costs[NodeEvent.SPECIATION]\n    loss_cost = costs[EdgeEvent.FULL_LOSS]\n",
+      "    spe_cost = costs[NodeEvent.SPECIATION]\n    loss_cost = costs[EdgeEvent.FULL_LOSS] or 1\n", "COST-TRUTH"),
+    T("twin-fromdict-none-default", MODEL, "                costs[event_enum] = value\n", "                costs[event_enum] = value if value is not None else get_default_cost()[event_enum]\n"),
+    M("map-lowercase-index", TMAP, "    return {\n        from_tree & from_node: to_tree & to_node for from_node, to_node in data.items()\n    }",
+      "    to_nodes = {node.name.lower(): node for node in to_tree.traverse()}\n    return {\n        from_tree & from_node: to_nodes[to_node.lower()] for from_node, to_node in data.items()\n    }", "MAPPING-KEYING"),
+    T("twin-map-exact-index", TMAP, "    return {\n        from_tree & from_node: to_tree & to_node for from_node, to_node in data.items()\n    }",
+      "    to_nodes = {node.name: node for node in to_tree.traverse()}\n    return {\n        from_tree & from_node: to_nodes[to_node] for from_node, to_node in data.items()\n    }"),
+    M("syn-sort-non-sequences", SYN, "sort_synteny(synteny) if isinstance(synteny, set) else list(synteny)",
+      "list(synteny) if isinstance(synteny, (list, tuple)) else sort_synteny(synteny)", "ORDER-PRESERVED"),
+    T("twin-syn-frozenset", SYN, "sort_synteny(synteny) if isinstance(synteny, set) else list(synteny)",
+      "sort_synteny(synteny) if isinstance(synteny, (set, frozenset)) else list(synteny)"),
+    M("draw-dispatch-input", DRAW, "    if \"syntenies\" in data:", "    if \"syntenies\" in data or \"leaf_syntenies\" in data.get(\"input\", {}):", "DISPATCH-KEYS"),
+    T("twin-draw-dispatch-not-in", DRAW, "    if \"syntenies\" in data:\n        rec_output = SuperReconciliationOutput.from_dict(data)\n    else:\n        rec_output = ReconciliationOutput.from_dict(data)",
+      "    if \"syntenies\" not in data:\n        rec_output = ReconciliationOutput.from_dict(data)\n    else:\n        rec_output = SuperReconciliationOutput.from_dict(data)"),
+    M("cli-partial-input-copy", CLI, "algorithm: declared leaf syntenies will be ignored\",\n                file=sys.stderr,\n            )\n",
+      "algorithm: declared leaf syntenies will be ignored\",\n                file=sys.stderr,\n            )\n            rec_input = ReconciliationInput(rec_input.object_tree, rec_input.species_lca, rec_input.leaf_object_species)\n",
+      "FIELD-COPY-COMPLETE"),
+    M("binarize-exhausted-iterator", MODEL,
+      "        for object_tree, species_tree in product(\n            binarize(self.object_tree),\n            binarize(self.species_lca.tree),\n        ):\n",
+      "        object_trees = binarize(self.object_tree)\n        for species_tree in binarize(self.species_lca.tree):\n          for object_tree in object_trees:\n",
+      "ITERATOR-REUSE", note="indentation of the body is kept by the two-space inner loop"),
+    # utils
+    M("dset-early-return", DSET, "        if self.rank[rep_first] == self.rank[rep_second]:\n            self.rank[rep_first] += 1\n            self.parent[rep_second] = rep_first\n        elif",
+      "        if self.rank[rep_first] < self.rank[rep_second]:\n            self.parent[rep_first] = rep_second\n            return True\n\n        if self.rank[rep_first] == self.rank[rep_second]:\n            self.rank[rep_first] += 1\n            self.parent[rep_second] = rep_first\n        elif",
+      "GROUPS-PAIRING"),
+    M("triples-leaves-from-triples", TREES, "        tree_leaves, tree_triples = tree_to_triples(tree)\n        leaves.update(tree_leaves)\n        triples.update(tree_triples)\n",
+      "        triples.update(tree_to_triples(tree)[1])\n\n    for triple in triples:\n        leaves.update(triple)\n", "LEAVES-SOURCE"),
+    T("twin-triples-leaf-names", TREES, "        tree_leaves, tree_triples = tree_to_triples(tree)\n        leaves.update(tree_leaves)\n        triples.update(tree_triples)\n",
+      "        triples.update(tree_to_triples(tree)[1])\n        leaves.update(tree.get_leaf_names())\n"),
+    M("topo-empty-early-exit", TOPO, "    results = _toposort_all_bt(starts, graph, indeg)\n", "    if not starts:\n        return []\n\n    results = _toposort_all_bt(starts, graph, indeg)\n", "EMPTY-RESULT-GUARD"),
+    T("twin-topo-nonempty-early-exit", TOPO, "    results = _toposort_all_bt(starts, graph, indeg)\n", "    if graph and not starts:\n        return []\n\n    results = _toposort_all_bt(starts, graph, indeg)\n"),
+    M("dp-table-template-copy", DP, "        return [_generate_table(rem) for i in range(dim.length)]", "        template = _generate_table(rem)\n        return [list(template) if template else template for _ in range(dim.length)]", "TABLE-FRESH-CELLS"),
+    M("dp-combine-explicit-inf", DP, "result = Entry(self._merge_policy, self._retention_policy)", "result = Entry(inf, set(), self._merge_policy, self._retention_policy)", "POLARITY"),
+    M("wrap-break-words", TEXT, "        next_result = textwrap.wrap(text, width, break_long_words=False)", "        next_result = textwrap.wrap(text, width)", "WRAP-DISCIPLINE"),
+    M("wrap-line-count-unchecked", TEXT, "        if len(next_result) != line_count:\n            break\n", "", "WRAP-DISCIPLINE"),
+    T("twin-wrap-eq-guard", TEXT, "        if len(next_result) != line_count:\n            break\n\n        next_badness = _wrap_badness(next_result)\n\n        if next_badness < best_badness:\n            best_result = next_result\n            best_badness = next_badness",
+      "        if len(next_result) == line_count:\n            next_badness = _wrap_badness(next_result)\n\n            if next_badness < best_badness:\n                best_result = next_result\n                best_badness = next_badness\n        else:\n            break"),
+    # render
+    M("losses-colour-from-prev", LAYOUT, "    color = getattr(gene, \"color\", None)\n    prev_species = start_species", "    prev_species = start_species", "COLOR-SOURCE",
+      note="second edit moves the read into the loop"),
+    M("losses-left-links-gene", LAYOUT, "            \"left\": prev_gene if is_left else None,", "            \"left\": gene if is_left else None,", "LOSS-CHAIN"),
+    M("colour-paint-descendants-preorder", LAYOUT,
+      "        if not hasattr(root_gene, \"color\") and hasattr(root_gene.up, \"color\"):\n            root_gene.add_feature(\"color\", root_gene.up.color)",
+      "        if hasattr(root_gene, \"color\"):\n            for sub_gene in root_gene.iter_descendants():\n                if not hasattr(sub_gene, \"color\"):\n                    sub_gene.add_feature(\"color\", root_gene.color)", "COLOR-INHERIT"),
+]
+for _v in VARIANTS:
+    if _v.name == "losses-colour-from-prev":
+        _v.edits.append(("        cur_gene = PseudoGene()\n", "        color = getattr(prev_gene, \"color\", None)\n        cur_gene = PseudoGene()\n"))
+    if _v.name == "thl-lru-cache":
+        _v.edits.append(("from itertools import product\n", "from functools import lru_cache\nfrom itertools import product\n"))
+    if _v.name == "tikz-shared-layers":
+        _v.edits.append(("MAX_DIGITS = 4\n", "MAX_DIGITS = 4\nLAYERS: Dict[str, List[str]] = {\"background\": [], \"gene branches\": [], \"gene transfers\": [], \"events\": []}\n"))
+    if _v.name == "lca-class-level-index":
+        _v.edits.append(("    def __init__(self, tree: Tree):\n        \"\"\"\n        Pre-compute the sparse table for lowest common ancestor queries.", "    traversal_index: Dict[TreeNode, int] = {}\n\n    def __init__(self, tree: Tree):\n        \"\"\"\n        Pre-compute the sparse table for lowest common ancestor queries."))
+    if _v.name == "fromdict-cost-or-default":
+        pass
 
 # the CLI twin needs a second edit (label in reconcile)
 for _v in VARIANTS:
